@@ -74,7 +74,7 @@ def run_checks(sd, checks, tier="quick"):
     out = {}
     try:
         for c in checks:
-            env = dict(os.environ, VERIF_REPO=wt)
+            env = dict(os.environ, VERIF_REPO=wt, VERIF_EVIDENCE_DIR=os.path.join(d, "ev"), VERIF_REPLAY_DIR=os.path.join(d, "rp"))
             t0 = time.time()
             p = subprocess.run([os.path.join(HERE, "check"), c, "--tier", tier], cwd=HERE, env=env, capture_output=True, text=True)
             keys = []
@@ -85,7 +85,6 @@ def run_checks(sd, checks, tier="quick"):
             out[c] = {"exit": p.returncode, "keys": keys[:8], "wall_s": round(time.time() - t0, 1)}
     finally:
         drop(d)
-        shutil.rmtree(os.path.join(HERE, "replays"), ignore_errors=True)
     return out
 
 
